@@ -39,3 +39,46 @@ PROPS['C20'] = dict(
     assumptions=["entries are abstracted to (instant, record-class): harness records of one class are deeply equal, "
                  "of different classes not (NaN-bearing records excluded)"],
 )
+
+_CODEC_RULE = ("codec suite: per case a message of one of 13 types is produced (v) by the library's own encoder from a "
+               "caller-built value, (a) by an independent encoder from the specification with random legal widths / key "
+               "orders / unknown option keys / ext records, (c) as a concatenation, or (m) by mutation (truncation, bit "
+               "flip, insert/delete, arity and count tampering, retagging, random bytes); each input is decoded by "
+               "UnmarshalMsg and DecodeMsg into fresh and used receivers. distinct = distinct (op,args); non-trivial = "
+               "the real decoder returned ok, or the input is a mutation (error paths count once per distinct input)")
+_CODEC_ASSUME = ["tinylib/msgp read primitives as modelled in lean/FluentVerif/Msgp/Read.lean (validated by this correspondence only)",
+                 "stream path exercised over a non-seekable reader (a network connection); inputs declaring 32-bit lengths/counts "
+                 "beyond the input are run in a child process (slice path) or skipped (stream path)"]
+_CODEC_SUITE = dict(suite='codec', n=dict(quick=3000, thorough=40000), shards=dict(quick=1, thorough=16),
+                    trivial=r'^(-|.*\.skip)$')
+
+PROPS['C13'] = dict(
+    lean_modules=['FluentVerif.Props.C13'],
+    theorems=['FV.C13_Message', 'FV.C13_MessageExt', 'FV.C13_Forward', 'FV.C13_Packed', 'FV.C13_Entry', 'FV.C13_EntryExt',
+              'FV.C13_EntryList', 'FV.C13_Options', 'FV.C13_Ack', 'FV.C13_Helo', 'FV.C13_HeloOpts', 'FV.C13_Ping', 'FV.C13_Pong',
+              'FV.C13_arity_Message', 'FV.C13_arity_MessageExt', 'FV.C13_arity_Forward', 'FV.C13_arity_Packed', 'FV.C13_sequence'],
+    suites=[_CODEC_SUITE],
+    rule=_CODEC_RULE,
+    explanation="C13_T: T.unmarshal p recv b = ok v r -> exists o, parse b = some (o, r), for every input, receiver and path "
+                "(parse = the specification parser, sharing no code with the decoder models); C13_arity_T: foreign counts are "
+                "rejected; C13_sequence: n successive decodes consume exactly n values. Correspondence: the model's result "
+                "(class, bytes consumed, decoded value) equals the real decoder's on every generated line; the oracle "
+                "compares the real decoder's consumed count with the parser's object boundary.",
+    assumptions=_CODEC_ASSUME,
+)
+
+PROPS['C18'] = dict(
+    lean_modules=['FluentVerif.Props.C18'],
+    theorems=['FV.C18_Message', 'FV.C18_MessageExt', 'FV.C18_Forward', 'FV.C18_Packed', 'FV.C18_Entry', 'FV.C18_EntryExt',
+              'FV.C18_legacy_witness'],
+    suites=[_CODEC_SUITE],
+    rule=_CODEC_RULE + "; for C18 the relevant lines are those with a used receiver (recv = U<bytes decoded first>)",
+    explanation="C18_T: T.unmarshal p recv b = T.unmarshal p {} b for every receiver, path and input. Correspondence as for "
+                "C13; the oracle compares the real decoder's result for a used receiver with its result for a fresh one. "
+                "Scope: the Forward-mode messages and entries; the msgp-generated map decoders (MessageOptions, HeloOpts, "
+                "AckMessage) merge into the receiver by msgp's design and are outside the property's anchors.",
+    assumptions=_CODEC_ASSUME,
+)
+
+NOT_APPLICABLE = {}
+HOOK_COMMITS = []
